@@ -245,6 +245,12 @@ def check_select_variables(ctx, recipe, built, c) -> None:
         except Exception as e:
             ctx.oracle_fail('select-variables-raised', desc, f'{type(e).__name__}: {str(e)[:200]}')
             continue
+        gnames = [g for g in (built.extra.get('geom_names') or []) if g in built.ds.variables]
+        if built.conv == 'ugrid':
+            gnames = [g for g in built.ds.variables if str(g).startswith('Mesh2')]
+        gone = [g for g in gnames if g not in ds2.variables]
+        if gone:
+            ctx.oracle_fail('select-variables-drops-geometry', desc, f'geometry variables {gone} are missing after select_variables({sub})')
         if cls is not built.conv_class:
             ctx.oracle_fail('select-variables-convention-changed', desc, f'detected as {cls}')
         elif polys != base:
@@ -261,13 +267,13 @@ def make_recipe(ctx, k):
     if conv == 'ugrid':
         kw = {'max_w': 3, 'max_h': 2, 'coords_as': 'vars'}
     elif conv == 'cf1d':
-        kw = {'max_n': 4, 'coords_as': rng.choice(['coords', 'vars']), 'bounds': rng.choice(['contig', 'contig', 'none']),
+        kw = {'max_n': 4, 'coords_as': rng.choice(['coords', 'vars']), 'bounds': rng.choice(['contig', 'gaps', 'none']),
               'bounds_as': rng.choice(['vars', 'coords'])}
     elif conv == 'shoc_standard':
         kw = {'max_n': 4, 'min_n': 2, 'coords_as': rng.choice(['coords', 'vars'])}
     else:
         kw = {'max_n': 4, 'min_n': 2, 'coords_as': rng.choice(['coords', 'vars']), 'bounds': rng.choice(['stored', 'stored', 'none']),
-              'bounds_as': 'vars'}
+              'bounds_as': rng.choice(['vars', 'vars', 'coords'])}
     recipe = G.random_recipe(rng, conv, ctx.tier, **kw)
     return G.attach_vars(rng, recipe, n_vars=2, max_extra=1, dtypes=('f8', 'i4'))
 
